@@ -400,7 +400,8 @@ example : minTag [⟨1, 5⟩, ⟨2, 0⟩] = some ⟨1, 5⟩ := by decide
 /-- F110 witness: `INTEGER (0..MAX)`, value 128: X.691 §10.7 → `01 80` (asn1c wrote `02 00 80` before the repair of F110) -/
 theorem ref_F110_witness : encUPERbytes (.integer ⟨some 0, none, false⟩) (.int 128) = some [0x01, 0x80] := by
   simp only [encUPERbytes, encUPER]; decide +kernel
-/-- F111 witness: `GeneralizedTime` "19700101000000Z" is a VisibleString: 7 bits per character -/
+/-- F111 witness: `GeneralizedTime` "19700101000000Z" is a VisibleString: 7 bits per character (the named type
+    `T ::= GeneralizedTime` was written with 8-bit characters before the repair of F111) -/
 theorem ref_F111_witness :
     encUPERbytes (.kmstr 1 [(32, 126)] [(32, 126)] ⟨0, none, false⟩)
       (.octets [0x31,0x39,0x37,0x30,0x30,0x31,0x30,0x31,0x30,0x30,0x30,0x30,0x30,0x30,0x5a]) =
